@@ -59,17 +59,18 @@ def _verify(tm, pre, ended):
 
 # ------------------------------------------------------------------------------
 @obligation(params={'bind': (0, 2), 'ist': (0, N_T - 1), 'pfin': (5, 7),
-                    'first': (1, 2), 'both': 'bool'},
+                    'first': (1, 2), 'both': 'bool', 'svc': 'bool'},
             partition={'quick': ('ist', 9), 'thorough': ('ist', 18)},
             timeout={'quick': 200, 'thorough': 600},
             funcs=FUNCS,
-            bounds='1 arbitrary task (binding x 18 states) + 3 fixed bystanders '
+            bounds='1 arbitrary task (binding x 18 states; an ordinary or a '
+                   'service task) + 3 fixed bystanders '
                    '(running on p0, running on p1, unbound NEW); pilot p0/p1 '
                    'ends first in DONE/FAILED/CANCELED, optionally the other '
                    'pilot ends afterwards',
             stubs=['TaskManager.advance -> recorder', 'Pilot facade -> object '
                    'with uid/state', '_log no-op'])
-def h_pilot_final(bind, ist, pfin, first, both):
+def h_pilot_final(bind, ist, pfin, first, both, svc=False):
     """pilot(s) end: exactly the non-final tasks bound to them become FAILED"""
     tm  = mk_tmgr()
     pre = {'t0': (PIDS[bind], TSTATES[ist]),
@@ -77,7 +78,9 @@ def h_pilot_final(bind, ist, pfin, first, both):
            'b1': (PIDS[2], rps.AGENT_SCHEDULING),
            'b2': (None,    rps.TMGR_SCHEDULING)}
     for uid, (pid, st) in pre.items():
-        add_task(tm, uid, st, pilot=pid)
+        add_task(tm, uid, st, pilot=pid,
+                 mode='task.service' if (svc and uid == 't0')
+                      else 'task.executable')
     order = [PIDS[first]] + ([PIDS[3 - first]] if both else [])
     for pid in order:
         ret = real(tm._pilot_state_cb, [FakePilot(pid, PSTATES[pfin])])
@@ -132,7 +135,8 @@ def h_two_tasks(b0, s0, b1, s1, pfin):
 # through the public registration path: add_pilots -> Pilot.register_callback
 # -> Pilot._update -> TaskManager._pilot_state_cb
 #
-from harness.common import FakeLock                               # noqa: E402
+from harness.common import FakeLock, FakeEvent                    # noqa: E402
+from vfw.api import Null                                         # noqa: E402
 from harness.c14 import mk_pilot_obj                              # noqa: E402
 from harness.c15 import mk_pmgr                                   # noqa: E402
 
@@ -198,3 +202,82 @@ def h_add_pilots_end(one_call, swap, ender, pfin, ist, pcur, via_pmgr):
         real(pm._pilots[epid]._update, {'uid': epid, 'state': PSTATES[pfin]})
     reach()
     _verify(tm, pre, [epid])
+
+
+# ------------------------------------------------------------------------------
+# pilots which end because their PilotManager is closed while the TaskManager
+# still has tasks on them
+#
+import radical.pilot.pilot_manager as m_pmgr                          # noqa: E402
+
+
+@obligation(params={'ist': (0, N_T - 1), 'pcur': (0, 4), 'terminate': 'bool',
+                    'two': 'bool'},
+            partition={'quick': ('ist', 6), 'thorough': ('ist', 18)},
+            timeout={'quick': 200, 'thorough': 600},
+            funcs=FUNCS + ['radical/pilot/pilot_manager.py:PilotManager.close',
+                           'radical/pilot/pilot_manager.py:'
+                           'PilotManager._update_pilot',
+                           'radical/pilot/pilot.py:Pilot._update'],
+            bounds='1..2 pilots (known to the client in any non-final state) '
+                   'added to a TaskManager, 1 task per pilot (the first in an '
+                   'arbitrary state); PilotManager.close(terminate) runs: the '
+                   'cancel request is answered with a CANCELED notification '
+                   'per non-final pilot',
+            stubs=['cancel_pilots -> CANCELED notifications through the real '
+                   '_update_pilot', 'kill_pilots / component shutdown / dump '
+                   '-> no-op'])
+def h_pmgr_close(ist, pcur, terminate, two):
+    """closing the pilot manager ends its pilots: their tasks are failed"""
+    pcur = conc(pcur, 0, 4)
+    tm = mk_tmgr()
+    tm.publish = lambda *a, **k: None
+    pm = mk_pmgr()
+    pm._pcb_lock  = FakeLock()
+    pm._callbacks = {m: dict() for m in rpc.PMGR_METRICS}
+    pm.advance    = lambda *a, **k: None
+    pm._closed    = False
+    pm._rep       = Null()
+    pm._log       = Null()
+    pm._uid       = 'pmgr.0000'
+    pm._cmgr      = Null()
+    pm._terminate = FakeEvent()
+    pm.dump       = lambda *a, **k: None
+    pids = [PIDS[1], PIDS[2]] if two else [PIDS[1]]
+    for pid in pids:
+        p = mk_pilot_obj(pm, pid, PSTATES[pcur])
+        p._tmgr   = None
+        p.as_dict = (lambda pid=pid: {'uid': pid, 'type': 'pilot',
+                                      'state': rps.PMGR_ACTIVE})
+        pm._pilots[pid] = p
+    real(tm.add_pilots, [pm._pilots[pid] for pid in pids])
+    pre = {'t0': (pids[0], TSTATES[ist])}
+    if two:
+        pre['b0'] = (pids[1], rps.AGENT_EXECUTING)
+    for uid, (pid, st) in pre.items():
+        add_task(tm, uid, st, pilot=pid)
+    ended = []
+    def _cancel_pilots(uids=None, _timeout=None):
+        # what the launcher answers: every non-final pilot ends CANCELED
+        for pid in pids:
+            if pm._pilots[pid].state not in rps.FINAL:
+                ended.append(pid)
+                pm._update_pilot({'type': 'pilot', 'uid': pid,
+                                  'state': rps.CANCELED}, publish=True)
+    pm.cancel_pilots = _cancel_pilots
+    pm.kill_pilots   = lambda *a, **k: None
+    base = m_pmgr.rpu.ClientComponent
+    old  = base.__dict__.get('close')
+    base.close = lambda self: None
+    try:
+        real(pm.close, terminate=terminate)
+    finally:
+        if old is None: del base.close
+        else: base.close = old
+    reach()
+    trace('closed, terminate', terminate, 'ended', ended,
+          'tasks', {u: t.state for u, t in tm._tasks.items()})
+    check(pm._closed, 'pilot manager not closed')
+    if terminate:
+        check(sorted(ended) == sorted(pids), 'pilots %s not ended', pids)
+    _verify(tm, pre, ended)
